@@ -105,6 +105,7 @@ def run(ctx):
         if mine != r:
             res['disagreements'].append({'stage': 'rmatch', 'rule': i, 'pos': pos,
                                          'input': [ord(c) for c in s], 'impl': mine, 'model': r})
+    kdone = common.kernel_route(ctx, 'lex', texts, res)
     lens = collections.Counter(min(len(s) // 50 * 50, 1000) for s in texts)
     res.update({
         'evaluations': len(texts) + len(reqs),
@@ -117,7 +118,8 @@ def run(ctx):
         'traces_validated_against_impl': len(texts) + len(reqs),
         'distribution': {'generator': dict(dist), 'corpus': len(corpus),
                          'length_histogram': {str(k): v for k, v in sorted(lens.items())},
-                         'rmatch_requests': len(reqs), 'rmatch_matches': nmatch},
+                         'rmatch_requests': len(reqs), 'rmatch_matches': nmatch,
+                         'kernel_evaluated_lex (vm_compute inside coqc, compared with the implementation)': kdone},
     })
     return res
 
